@@ -529,5 +529,86 @@ example :
     let ops := [Op.sub s 4 7, .sub s 4 8, .unsub 0, .close s, .deliver s 4]
     wf ops = true ∧ deliveries (run ops).out = [[1]] ∧ (retained (run ops).st).map (·.h) = [1] := by decide
 
+/-! #### prefixes -/
+
+/-- `wf` is prefix-closed -/
+theorem wfFrom_prefix (seen : List (Str × Nat × Nat)) (a b : List Op) (h : wfFrom seen (a ++ b) = true) :
+    wfFrom seen a = true := by
+  induction a generalizing seen with
+  | nil => rfl
+  | cons op ops ih =>
+    cases op with
+    | sub s t u =>
+      simp only [List.cons_append, wfFrom, Bool.and_eq_true] at h ⊢
+      exact ⟨h.1, ih _ h.2⟩
+    | unsub k => simp only [List.cons_append, wfFrom] at h ⊢; exact ih _ h
+    | unsubRaw id => simp [wfFrom] at h
+    | deliver s t => simp only [List.cons_append, wfFrom] at h ⊢; exact ih _ h
+    | close s => simp only [List.cons_append, wfFrom] at h ⊢; exact ih _ h
+
+theorem wf_prefix (a b : List Op) (h : wf (a ++ b) = true) : wf a = true := wfFrom_prefix [] a b h
+
+/-- **Cancelled means gone, at every later moment.** With the k-th subscription issued in `pre` and then cancelled:
+    after EVERY prefix `post₁` of any well-formed continuation `post₁ ++ post₂` the handle is not retained and no
+    delivery of any (session, type) made at that moment reaches it. -/
+theorem cancelled_never_again_prefix (pre post₁ post₂ : List Op) (k : Nat)
+    (hw : wf (pre ++ Op.unsub k :: (post₁ ++ post₂)) = true) (hk : k < (srun pre).n) :
+    k ∉ (retained (run (pre ++ Op.unsub k :: post₁)).st).map (·.h) ∧
+    ∀ s t, k ∉ subscribers (run (pre ++ Op.unsub k :: post₁)).st s t := by
+  apply cancelled_never_again pre post₁ k _ hk
+  apply wf_prefix _ post₂
+  simpa using hw
+
+/-- the outputs of a run only grow -/
+theorem foldl_step_out (ops : List Op) (r : Run) : ∃ t, (ops.foldl step r).out = r.out ++ t := by
+  induction ops generalizing r with
+  | nil => exact ⟨[], by simp⟩
+  | cons op ops ih =>
+    obtain ⟨t, ht⟩ := ih (step r op)
+    have : ∃ x, (step r op).out = r.out ++ [x] := by
+      cases op with
+      | sub s t u => exact ⟨_, rfl⟩
+      | unsub k => simp only [step]; split <;> exact ⟨_, rfl⟩
+      | unsubRaw id => exact ⟨_, rfl⟩
+      | deliver s t => exact ⟨_, rfl⟩
+      | close s => exact ⟨_, rfl⟩
+    obtain ⟨x, hx⟩ := this
+    exact ⟨x :: t, by simp only [List.foldl_cons]; rw [ht, hx]; simp⟩
+
+theorem wfIn_wfPrefix (ops : List Op) : wfIn (wfPrefix ops) = true := by
+  induction ops with
+  | nil => rfl
+  | cons op ops ih =>
+    unfold wfPrefix at ih ⊢
+    simp only [List.takeWhile_cons]
+    cases op with
+    | sub s t u =>
+      by_cases h : t ≤ unknownType
+      · simp [Op.okIn, h, wfIn, ih]
+      · simp [Op.okIn, h, wfIn]
+    | unsub k => simpa [Op.okIn, wfIn] using ih
+    | unsubRaw id => simp [Op.okIn, wfIn]
+    | deliver s t => simpa [Op.okIn, wfIn] using ih
+    | close s => simpa [Op.okIn, wfIn] using ih
+
+/-- **C12 on arbitrary histories (what the driver evaluates).** For EVERY history — foreign id strings and undeclared
+    types included — if the identifiers handed out before the first such operation are fresh, then up to that
+    operation every delivery of the modelled manager reached exactly the live subscribers. -/
+theorem refines_prefix (ops : List Op) (hf : fresh (wfPrefix ops) = true) :
+    (deliveries (run ops).out).take (srun (wfPrefix ops)).out.length = (srun (wfPrefix ops)).out := by
+  have hsplit : ops = wfPrefix ops ++ ops.dropWhile Op.okIn := by
+    unfold wfPrefix; exact (List.takeWhile_append_dropWhile).symm
+  have hw : wf (wfPrefix ops) = true := by
+    unfold wf; rw [wfFrom_split, wfIn_wfPrefix]; simpa [fresh] using hf
+  have hr := refines _ hw
+  simp only [P12, Bool.and_eq_true, beq_iff_eq] at hr
+  obtain ⟨t, ht⟩ := foldl_step_out (ops.dropWhile Op.okIn) (run (wfPrefix ops))
+  have hrun : (run ops).out = (run (wfPrefix ops)).out ++ t := by
+    conv => lhs; rw [hsplit]
+    unfold run at ht ⊢
+    rw [List.foldl_append]; exact ht
+  rw [hrun, deliveries_append, hr.1]
+  simp
+
 end Property
 end Sygma.C12
